@@ -394,6 +394,13 @@ def coerce(v, kind):
         return out
     if isinstance(kind, Seq) and isinstance(v.kind, Seq) and v.kind.elem is None:
         return empty_seq(kind.elem)
+    if isinstance(kind, Seq) and isinstance(v.kind, Seq):
+        n = z3.simplify(seq_len(v))
+        if z3.is_int_value(n) and n.as_long() <= 16:
+            out = empty_seq(kind.elem)
+            for j in range(n.as_long()):
+                out = seq_append(out, coerce(seq_get(v, z3.IntVal(j)), kind.elem))
+            return out
     if isinstance(kind, Rec) and isinstance(v.kind, Rec):
         terms = []
         for k, kk in kind.fields.items():
